@@ -145,7 +145,9 @@ func (cl *call) runUnary(cc *goat.ClientConn, st Step) {
 	e.Md = mdCanon(mdOf(st.Md))
 	cl.begin("unary")
 	tr.emit(e)
-	reply := new(wrapperspb.BytesValue)
+	// a reply object that is not fresh (an application may reuse one, an interceptor may have touched it): whatever the
+	// response is, it replaces what is in there
+	reply := &wrapperspb.BytesValue{Value: []byte("stale contents of a reused reply")}
 	m, _ := methodOf("unary")
 	var err error
 	if st.What == "bad" { // a request the codec refuses: the call fails locally, nothing is written
